@@ -32,8 +32,9 @@ META = {
                   "search_missing_revision_ids/_walk_to_common_revisions, RepoFetcher, the stream sources' text "
                   "selection and StreamSink's parent-inventory refill + correspondence on real repositories"),
     "level_text": ("partial (P-spec with a proved set-algebra core).  THEOREMS (every history, ghosts and merges, any target "
-                   "content, both search modes, both text selections): which revisions each search requests; the two "
-                   "searches agree; after a successful fetch every ancestor the "
+                   "content, all three searches -- find_ghosts, local walk, recipe replay by a smart source -- and sparse sources whose "
+                   "inventories name texts after revisions they lack): which revisions each search requests; every search is an "
+                   "admissible walk; after a successful fetch every ancestor the "
                    "source has is visible and the target is closed again; nothing is lost and a failing fetch changes "
                    "nothing; a second fetch requests and changes nothing; every copied revision arrives with its "
                    "inventory and all texts it references -- also for find_ghosts=False into a target with a fillable ghost "
@@ -54,6 +55,7 @@ META = {
     "assumptions": ["a revision id determines the revision (parents, tree): source and target never hold different revisions under one id",
                     "the per-revision inventories (file id, last-changed revision) given to the model are the source's (read back from the real repository; wf_univ is evaluated on them in every case)",
                     "vcsgraph _BreadthFirstSearcher (next_with_ghosts, find_seen_ancestors, stop_searching_any, get_state) behaves as summarised by missing_walk when the search is exhausted in the first batch or the target is closed (compared on every run)",
+                    "a smart-server source replays the find_ghosts=False search recipe from the tip (missing_replay), a local source uses the client-side key set (compared on every run)",
                     "formats 2a and pack-0.92; local transport and the in-process smart server"],
     "rule": "a case whose first step copies at least one revision is non-trivial; distinct = distinct (input, observation)",
 }
